@@ -211,4 +211,169 @@ theorem updateByte_lo (c : BitVec 16) : updateByte c (c.truncate 8) = c >>> 8 :=
   simp only [e1, e2, shr4_and, k, BitVec.xor_assoc, BitVec.xor_self, BitVec.xor_zero]
   rw [← BitVec.shiftRight_add]
 
+/-! ### burst detection -/
+
+/-- the zero-input step never sends a non-zero register to zero (the reflected polynomial has its
+    top bit set, the shifted register has not) -/
+theorem bitStep_false_ne_zero (c : BitVec 16) (h : c ≠ 0#16) : bitStep c false ≠ 0#16 := by
+  unfold bitStep
+  simp only [Bool.bne_false]
+  by_cases hl : c.getLsbD 0 = true
+  · simp only [hl, ↓reduceIte]
+    intro h0
+    -- msb of (c >>> 1) is false, msb of poly is true
+    have : (c >>> 1 ^^^ poly).msb = true := by
+      rw [BitVec.msb_xor]
+      have h1 : (c >>> 1).msb = false := by
+        rw [BitVec.msb_eq_decide]
+        simp only [BitVec.toNat_ushiftRight, Nat.shiftRight_eq_div_pow]
+        have := c.isLt
+        simp; omega
+      have h2 : poly.msb = true := by decide
+      simp [h1, h2]
+    rw [h0] at this
+    simp at this
+  · simp only [hl, Bool.false_eq_true, ↓reduceIte]
+    intro h0
+    apply h
+    -- c >>> 1 = 0 and lsb c = 0 give c = 0
+    apply BitVec.eq_of_toNat_eq
+    have h1 : (c >>> 1).toNat = 0 := by rw [h0]; rfl
+    simp only [BitVec.toNat_ushiftRight, Nat.shiftRight_eq_div_pow] at h1
+    have hl' : c.getLsbD 0 = false := by simpa using hl
+    have h2 : c.toNat % 2 = 0 := by
+      have hb : c.toNat.testBit 0 = false := hl'
+      rw [Nat.testBit_zero] at hb
+      simp at hb
+      omega
+    simp
+    omega
+
+theorem bitsStep_zeros_ne_zero (c : BitVec 16) (h : c ≠ 0#16) (n : Nat) :
+    bitsStep c (List.replicate n false) ≠ 0#16 := by
+  induction n generalizing c with
+  | zero => simpa [bitsStep]
+  | succ n ih =>
+    simp only [List.replicate_succ, bitsStep, List.foldl_cons]
+    exact ih _ (bitStep_false_ne_zero c h)
+
+/-- leading-bit invariant: a register that is at least 2^(15-m) stays non-zero for `15 - m` more
+    steps, whatever bits are fed -/
+theorem bitStep_lower (c : BitVec 16) (b : Bool) (m : Nat) (hm : m < 15) (h : 2 ^ (15 - m) ≤ c.toNat) :
+    2 ^ (15 - (m + 1)) ≤ (bitStep c b).toNat := by
+  unfold bitStep
+  have hsh : (c >>> 1).toNat = c.toNat / 2 := by
+    simp [BitVec.toNat_ushiftRight, Nat.shiftRight_eq_div_pow]
+  have hp : (2 : Nat) ^ (15 - m) = 2 * 2 ^ (15 - (m + 1)) := by
+    have : 15 - m = (15 - (m + 1)) + 1 := by omega
+    rw [this, Nat.pow_succ, Nat.mul_comm]
+  simp only
+  by_cases hfb : (c.getLsbD 0 ^^ b) = true <;> simp only [hfb, ↓reduceIte, Bool.false_eq_true]
+  · -- xor with poly sets bit 15
+    have : (c >>> 1 ^^^ poly).msb = true := by
+      rw [BitVec.msb_xor]
+      have h1 : (c >>> 1).msb = false := by
+        rw [BitVec.msb_eq_decide]
+        have := c.isLt
+        simp [hsh]; omega
+      have h2 : poly.msb = true := by decide
+      simp [h1, h2]
+    rw [BitVec.msb_eq_decide] at this
+    have h15 : 2 ^ (16 - 1) ≤ (c >>> 1 ^^^ poly).toNat := of_decide_eq_true this
+    have hle : 2 ^ (15 - (m + 1)) ≤ 2 ^ 15 := Nat.pow_le_pow_right (by decide) (by omega)
+    simp only [Nat.add_one_sub_one] at h15
+    omega
+  · rw [hsh]
+    omega
+
+theorem bitsStep_lower (c : BitVec 16) (bs : List Bool) (m : Nat) (hm : m + bs.length ≤ 15)
+    (h : 2 ^ (15 - m) ≤ c.toNat) : bitsStep c bs ≠ 0#16 := by
+  induction bs generalizing c m with
+  | nil =>
+    simp only [bitsStep, List.foldl_nil]
+    intro h0
+    have hz : (0#16).toNat = 0 := rfl
+    rw [h0, hz] at h
+    have := Nat.two_pow_pos (15 - m)
+    omega
+  | cons b bs ih =>
+    simp only [bitsStep, List.foldl_cons]
+    simp only [List.length_cons] at hm
+    exact ih _ (m + 1) (by omega) (bitStep_lower c b m (by omega) h)
+
+/-- a non-zero pattern of at most 16 bits fed into the zero register leaves it non-zero -/
+theorem pattern_ne_zero (d : List Bool) (hl : d.length ≤ 16) (hn : true ∈ d) :
+    bitsStep 0#16 d ≠ 0#16 := by
+  -- split at the first set bit
+  induction d with
+  | nil => simp at hn
+  | cons b bs ih =>
+    cases b with
+    | false =>
+      simp only [bitsStep, List.foldl_cons, bitStep_zero_false]
+      simp only [List.mem_cons, Bool.true_eq_false, false_or] at hn
+      exact ih (by simp at hl; omega) hn
+    | true =>
+      simp only [bitsStep, List.foldl_cons]
+      have hp : bitStep 0#16 true = poly := by decide
+      rw [hp]
+      apply bitsStep_lower poly bs 0 (by simp at hl; omega)
+      decide
+
+theorem xor_eq_zero_iff (a b : BitVec 16) : a ^^^ b = 0#16 ↔ a = b := by
+  constructor
+  · intro h
+    have : a ^^^ b ^^^ b = 0#16 ^^^ b := by rw [h]
+    rw [BitVec.xor_assoc, BitVec.xor_self, BitVec.xor_zero, BitVec.zero_xor] at this
+    exact this
+  · intro h; rw [h, BitVec.xor_self]
+
+theorem zipWith_xor_self (xs : List Bool) : List.zipWith (· ^^ ·) xs xs = List.replicate xs.length false := by
+  induction xs with
+  | nil => rfl
+  | cons x xs ih =>
+    simp only [List.zipWith_cons_cons, Bool.xor_self, List.length_cons, List.replicate_succ, ih]
+
+theorem exists_diff (w w' : List Bool) (hlen : w.length = w'.length) (hne : w ≠ w') :
+    true ∈ List.zipWith (· ^^ ·) w w' := by
+  induction w generalizing w' with
+  | nil =>
+    cases w' with
+    | nil => exact absurd rfl hne
+    | cons _ _ => simp at hlen
+  | cons x xs ih =>
+    cases w' with
+    | nil => simp at hlen
+    | cons y ys =>
+      simp only [List.zipWith_cons_cons, List.mem_cons]
+      by_cases hxy : x = y
+      · right
+        subst hxy
+        apply ih ys (by simpa using hlen)
+        intro h; apply hne; rw [h]
+      · left
+        cases x <;> cases y <;> simp_all
+
+/-- **Burst detection at the register level.**  Two bit streams that agree outside a window of at
+    most 16 bits and differ inside it drive the register — from any common starting state — to
+    different values, whatever follows the window. -/
+theorem burst_changes_register (c : BitVec 16) (pre w w' post : List Bool)
+    (hlen : w.length = w'.length) (h16 : w.length ≤ 16) (hne : w ≠ w') :
+    bitsStep c (pre ++ w ++ post) ≠ bitsStep c (pre ++ w' ++ post) := by
+  rw [bitsStep_append, bitsStep_append, bitsStep_append, bitsStep_append]
+  generalize bitsStep c pre = c1
+  -- after the window the registers differ
+  have hd : bitsStep c1 w ^^^ bitsStep c1 w' ≠ 0#16 := by
+    have := bitsStep_xor w w' hlen c1 c1
+    rw [BitVec.xor_self] at this
+    rw [← this]
+    apply pattern_ne_zero
+    · simp [List.length_zipWith, hlen]; omega
+    · exact exists_diff w w' hlen hne
+  -- and zero-difference input keeps them different
+  intro heq
+  have hlin := bitsStep_xor post post rfl (bitsStep c1 w) (bitsStep c1 w')
+  rw [zipWith_xor_self, heq, BitVec.xor_self] at hlin
+  exact bitsStep_zeros_ne_zero _ hd _ hlin
+
 end Fit.Crc
